@@ -45,9 +45,34 @@ pub fn catch<T>(f: impl FnOnce() -> T) -> Result<T, String> {
 /// A panic message with line numbers and concrete numbers stripped, for
 /// signatures.
 pub fn panic_sig(msg: &str) -> String {
+    // quoted payloads (`...`, "...", 'c') are data of the failing case, not
+    // part of the identity of the defect
+    let cs: Vec<char> = msg.chars().collect();
+    let mut plain = String::new();
+    let mut i = 0;
+    while i < cs.len() {
+        let c = cs[i];
+        let close = match c {
+            '`' | '"' => cs[i + 1..].iter().position(|&d| d == c),
+            '\'' => cs[i + 1..].iter().take(8).position(|&d| d == c),
+            _ => None,
+        };
+        match close {
+            Some(k) => {
+                plain.push(c);
+                plain.push('_');
+                plain.push(c);
+                i += k + 2;
+            }
+            None => {
+                plain.push(c);
+                i += 1;
+            }
+        }
+    }
     let mut out = String::new();
     let mut last_digit = false;
-    for c in msg.chars() {
+    for c in plain.chars() {
         if c.is_ascii_digit() {
             if !last_digit {
                 out.push('N');
